@@ -37,6 +37,8 @@ Basis == { Rq("read", 1, 0, 3, "INT", <<>>), Rq("read", 1, 1, 1, "INT", <<>>), R
                 Rq("read", 0, 0 - 1, 1, "INT", <<>>) }                     \* unknown tag
 Lists == UNION { [1 .. k -> Basis] : k \in 1 .. 2 }
 ASSUME PrintT(ToJson([k |-> "cfg", cfg |-> ICfg, mem0 |-> ZeroMemOf(ICfg)]))
+\* what the List Identity / List Services requests of a client must show: the simulator's identity and its one service
+ASSUME PrintT(ToJson([k |-> "lists", identity |-> SimIdentity, services |-> SimServices]))
 ASSUME \A r \in Basis : PrintT(ToJson([k |-> "op", r |-> r]))
 \* raw frames (reference encoder): Register, reads / writes in Unconnected Send and bare, a bundle, Unregister
 Frame(kind, i, wrap, r) == [kind |-> kind, sess |-> <<i, 0, 0, 0>>, ctx |-> <<i, 2, 3, 4, 5, 6, 7, 8>>, wrap |-> wrap,
